@@ -14,17 +14,45 @@ ROOT = os.path.dirname(os.path.dirname(os.path.abspath(__file__)))
 REPO = os.environ.get("VERIF_REPO", "/repo")
 
 
+_OBS = []
+
+
+def _discharge_idx(i):
+    from pyvc.solve import discharge
+    r = discharge(_OBS[i])
+    m = r.pop("model", None)
+    r["has_model"] = m is not None
+    return i, r
+
+
 def _worker(args):
     pid, key, tier = args
     t0 = time.time()
     try:
         from contracts import build
         from pyvc.solve import discharge, model_summary, smt2_of
+        global _OBS
         eng = build(pid)
         rep = eng.verify(key)
         obs = []
-        for ob in rep.pop("obligations", []):
-            r = discharge(ob)
+        allobs = rep.pop("obligations", [])
+        pre = {}
+        if len(allobs) > 6:
+            # discharge in forked children (the obligations are inherited by fork); models are recomputed in the
+            # parent only for the (few) obligations that are not proved
+            _OBS = allobs
+            with mp.get_context("fork").Pool(min(6, 1 + len(allobs) // 6)) as pool:
+                for i, r in pool.imap_unordered(_discharge_idx, range(len(allobs)), chunksize=1):
+                    pre[i] = r
+        for i, ob in enumerate(allobs):
+            if i in pre and pre[i]["status"] == "proved":
+                r = dict(pre[i], model=None)
+            elif i in pre and pre[i]["status"] == "unknown":
+                r = dict(pre[i], model=None)
+            else:
+                r = discharge(ob, z3_ms=3000, cli_s=5) if i in pre else discharge(ob)
+                if i in pre and r["status"] == "proved":
+                    r = discharge(ob)
             item = dict(name=ob.name, kind=ob.kind, line=ob.lineno, status=r["status"], backend=r["backend"],
                         time=r["time"], model=model_summary(r.get("model")), reason=r.get("reason"))
             if r["status"] in ("failed", "candidate") and r.get("model") is not None:
@@ -42,8 +70,17 @@ def _worker(args):
                     except BaseException as e:  # noqa
                         w["replay"] = dict(replayed=False, reason="replay harness error: " + repr(e))
             if item["status"] == "candidate":
-                # undecided by the solvers; it counts as a violation only when the candidate input fails on the real code
-                item["status"] = "failed" if (item.get("witness") or {}).get("replayed") else "unknown"
+                # undecided by the solvers (model of the quantifier-free part, quantified facts not refuted in time).
+                # It counts as a violation when the candidate input fails on the real code, or when this obligation is
+                # recorded in the committed baseline as discharged quickly on the unchanged tree (it passed, now it fails).
+                base = BASELINE.get(pid, {}).get(key, {}).get(norm_name(ob.name))
+                if (item.get("witness") or {}).get("replayed"):
+                    item["status"] = "failed"
+                elif base is not None and base < 1.0:
+                    item["status"] = "failed"
+                    item["backend"] += f"; discharged in {base:.2f}s on the unchanged tree (baseline)"
+                else:
+                    item["status"] = "unknown"
             obs.append(item)
         rep["obligations"] = obs
         rep["trivial"] = [list(x) for x in rep.get("trivial", [])]
@@ -52,6 +89,24 @@ def _worker(args):
         return rep
     except Exception:
         return dict(key=key, name=key, error="crash: " + traceback.format_exc(), obligations=[], trivial=[], undecided=[], wall=time.time() - t0, crash=True)
+
+
+def norm_name(n):
+    import re
+    return re.sub(r"@?L\d+", "L#", n)
+
+
+def load_baseline():
+    out = {}
+    d = os.path.join(ROOT, "baseline")
+    if os.path.isdir(d):
+        for f in os.listdir(d):
+            if f.endswith(".json"):
+                out[f[:-5]] = json.load(open(os.path.join(d, f)))
+    return out
+
+
+BASELINE = load_baseline()
 
 
 def load_known():
@@ -71,8 +126,9 @@ def run_property(pid, tier="quick", seed=0):
     if tier == "thorough":
         funcs += list(getattr(mod, "FUNCS_THOROUGH", []))
     nproc = min(16, max(1, len(funcs)))
-    with mp.get_context("fork").Pool(nproc) as pool:
-        reports = pool.map(_worker, [(pid, k, tier) for k in funcs], chunksize=1)
+    from concurrent.futures import ProcessPoolExecutor
+    with ProcessPoolExecutor(max_workers=nproc, mp_context=mp.get_context("fork")) as pool:      # non-daemonic workers
+        reports = list(pool.map(_worker, [(pid, k, tier) for k in funcs], chunksize=1))
     known = load_known()
     kf = [f for f in known.get("findings", []) if f["property"] == pid]
     violations, undecided, crashes, known_hits = [], [], [], []
@@ -169,6 +225,12 @@ def run_property(pid, tier="quick", seed=0):
     for f, v in known_hits:
         lines.append(f"KNOWN-FINDING: property={pid} {f['what']}")
     seen = set()
+    uniq, seen_v = [], set()
+    for v in new_violations:
+        k = (v["function"], norm_name(v["name"]), json.dumps((v.get("witness") or {}).get("case"), default=str))
+        if k not in seen_v:
+            seen_v.add(k); uniq.append(v)
+    new_violations = uniq
     for i, v in enumerate(new_violations):
         path = os.path.join(ROOT, "replay", f"{pid}-{i}.json")
         rp = dict(property=pid, function=v["function"], obligation=v["name"], kind=v["kind"], backend=v["backend"],
@@ -212,6 +274,15 @@ def run_property(pid, tier="quick", seed=0):
         wall_s=round(wall, 2), violations=len(new_violations),
     )
     ev["coverage"] = {k: v for k, v in ev["coverage"].items() if v is not None}
+    if os.environ.get("VERIF_RECORD_BASELINE") == "1" and not new_violations and not undecided:
+        base = {}
+        for rep in reports:
+            d = base.setdefault(rep["key"], {})
+            for ob in rep.get("obligations", []):
+                nm = norm_name(ob["name"])
+                d[nm] = round(max(d.get(nm, 0.0), ob["time"]), 3)
+        os.makedirs(os.path.join(ROOT, "baseline"), exist_ok=True)
+        json.dump(base, open(os.path.join(ROOT, "baseline", f"{pid}.json"), "w"), indent=0, sort_keys=True)
     os.makedirs(os.path.join(ROOT, "evidence"), exist_ok=True)
     with open(os.path.join(ROOT, "evidence", f"{pid}.json"), "w") as fh:
         json.dump(ev, fh, indent=1, default=str)
